@@ -53,13 +53,17 @@ func (r Rule) marshalJSONObjectOrArray() ([]byte, error) {
 		Key       string        `json:"key,omitempty"`
 		TokenType RuleTokenType `json:"tokenType"`
 		Note      string        `json:"note,omitempty"`
-		Children  []Rule        `json:"children,omitempty"`
+		Children  []Rule        `json:"children"`
 	}
 
 	data.Key = r.Key
 	data.TokenType = r.TokenType
 	data.Note = r.Note
 	data.Children = r.Children
+	if data.Children == nil {
+		// An empty object or array has the empty list of children, like the nodes of a schema.
+		data.Children = []Rule{}
+	}
 
 	return json.Marshal(data)
 }
